@@ -505,6 +505,10 @@ TC_STATEMENTS = [
     "environ['C09_ACC'] = environ.get('C09_ACC', '') + '+'",
     "install_dirs(prefix='/opt/from-tc', libdir='/opt/from-tc/lib64')",
     "install_dirs(bindir='/opt/tc bin')",
+    # probes relative to the toolchain file's own directory (a file `tcprobe`
+    # lies next to it and nowhere else)
+    "environ['C09_PROBE'] = which(['./tcprobe', 'true'])",
+    "compile_options('-DPROBE=' + which(['./tcprobe', 'true']), 'c')",
 ]
 
 E1_VARS = {
@@ -570,6 +574,9 @@ def e2e_cases(draw):
             # a regeneration that fails part-way through the toolchain file
             'fault': draw(st.one_of(st.none(), st.integers(0, 5))),
             'cwd': draw(st.sampled_from(['src', 'bld', 'root', 'tmp'])),
+            # later invocations go through another installed copy of the
+            # launcher scripts than the configure did
+            'altlauncher': draw(st.booleans()),
             'bldspelling': draw(st.sampled_from(['abs', 'rel', 'dotdot']))}
 
 
@@ -610,7 +617,8 @@ def model_toolchain(e1, statements):
         environ['LDFLAGS'] = options
     ns = {'environ': environ, 'compile_options': compile_options,
           'compiler': compiler, 'link_options': link_options,
-          'install_dirs': lambda **kw: None}
+          'install_dirs': lambda **kw: None,
+          'which': lambda names, **kw: names[0]}
     for s in statements:
         exec(s, ns)
     return environ
@@ -640,6 +648,8 @@ def prop_e2e(rec):
         if case.get('fault') is not None and case['tc']:
             labs.add('failed-regenerate-in-history')
         labs.add('cwd:' + case['cwd'])
+        if case.get('altlauncher'):
+            labs.add('other-launcher')
         labs.add('bld:' + case['bldspelling'])
         rec.case(labs, nontrivial=(
             [sorted(case['e1']), [s.split('(')[0].split('[')[0]
@@ -669,6 +679,7 @@ def prop_e2e(rec):
             if case['tc']:
                 tcf = os.path.join(tmp, 'top', 'tc.bfg')
                 sandbox.write_file(tcf, '\n'.join(case['tc']) + '\n')
+                sandbox.write_file(os.path.join(tmp, 'top', 'tcprobe'), '')
                 extra.append('--toolchain=' + tcf)
             env1 = sandbox.base_env(os.path.join(tmp, 'home1'),
                                     extra=case['e1'])
@@ -719,6 +730,12 @@ def prop_e2e(rec):
                             '{} differs from the one written at configure '
                             'time after {}:\n{}'.format(fn, what, d), case)
 
+            launcher = sandbox.BFG
+            if case.get('altlauncher'):
+                import shutil
+                alt = os.path.join(tmp, 'alt bin')
+                shutil.copytree(os.path.dirname(sandbox.BFG), alt)
+                launcher = os.path.join(alt, 'bfg9000')
             for i in (1, 2, 3):
                 args = ['regenerate', bldarg]
                 if i == 3:
@@ -729,7 +746,7 @@ def prop_e2e(rec):
                     os.utime(os.path.join(src, 'build.bfg'), ns=(t, t))
                     if case['tc']:
                         os.utime(tcf, ns=(t, t))
-                r = sandbox.run_bfg(args, cwd, env2)
+                r = sandbox.run_bfg(args, cwd, env2, launcher=launcher)
                 if r.rc != 0:
                     raise Violation('e2e/regenerate-failed', 'regenerate #{} '
                                     'exited {}: {}'.format(i, r.rc,
